@@ -194,8 +194,18 @@ func (ga *GroupAggregator) Add(data any) error {
 		var fieldVal any
 		var found bool
 
-		// Check if it's a nested field
-		if fieldpath.IsNestedField(field) {
+		// A function-expression key (upper(dev.id)) is evaluated by the stream
+		// before the row gets here and stored in the row under the key text. Its
+		// text may contain a dot or a bracket without being a path, so the flat
+		// key is tried first; a path is only followed when there is no such key.
+		if dataMap, ok := data.(map[string]any); ok && strings.Contains(field, "(") {
+			fieldVal, found = dataMap[field]
+		}
+
+		if found {
+			// the flat key holds the evaluated expression
+		} else if fieldpath.IsNestedField(field) {
+			// Check if it's a nested field
 			fieldVal, found = fieldpath.GetNestedField(data, field)
 		} else {
 			// Original field access logic
